@@ -251,7 +251,9 @@ FORM_BY_ID = {f.id: f for f in FORMS}
 POS_FORMS = [f for f in FORMS if f.mode == "pos"]
 
 # enclosing styles for a captured value: (head, tail)
-ENCLOSINGS = [("", ""), ('"', '"'), ("'", "'"), ('\\"', '\\"'), ("\\'", "\\'"), ("[", "]"), ("{", "}"), ("", ";"), ("", ","), ('"', '";'), ("{", "};"), ('["', '"]')]
+ENCLOSINGS = [("", ""), ('"', '"'), ("'", "'"), ('\\"', '\\"'), ("\\'", "\\'"), ("[", "]"), ("{", "}"), ("", ";"), ("", ","), ('"', '";'), ("{", "};"), ('["', '"]'),
+              # an escaped closing quote followed by further closers (a config line inside a JSON string or a quoted shell argument)
+              ('\\"', '\\"",'), ('\\"', '\\"}'), ("\\'", "\\'];"), ('\\"', '\\";'), ('"\\"', '\\""')]
 
 
 @st.composite
